@@ -76,13 +76,15 @@ def recvTags (st : St) (d : List Byte) : String :=
 
 def opTags (st : St) : Op → String
   | .servers n => "servers" ++ toString n
-  | .lookup sid => (if st.servers = 0 then "lookup-refused" else if st.reqs.isEmpty then "lookup-first" else "lookup-more") ++
+  | .lookup sid => (if st.servers = 0 ∨ st.reqs.length ≥ 65535 then "lookup-refused" else if st.reqs.isEmpty then "lookup-first" else "lookup-more") ++
       (if (st.scripts.getD sid []).isEmpty then "" else " lookup-scripted")
   | .defScript _ => "defscript"
   | .cancel id => if (find st.reqs id).isSome then "cancel-hit" else "cancel-miss"
   | .running _ => "running"
   | .recv d => recvTags st d
-  | .tick => if st.valueNumber = 0 then "tick-idle" else if st.r1.isEmpty then "tick-empty" else "tick-expire"
+  | .tick => if st.valueNumber = 0 then "tick-idle" else if st.r1.isEmpty then "tick-empty"
+             else if st.r1.any (fun t => match find st.reqs t.1 with | some r => r.serial != t.2 | none => false) then "tick-expire tick-stale-token"
+             else "tick-expire"
 
 def actTag (st : Status) : Act × Nat → String
   | (.lookup _, ret) => "act-lookup-in-" ++ statusStr st ++ (if ret = 0 then " act-lookup-refused" else "")
@@ -91,6 +93,21 @@ def actTag (st : Status) : Act × Nat → String
 
 def eventTags (es : List Event) : String :=
   " ".intercalate (es.map fun e => " ".intercalate (("cb-" ++ statusStr e.result.status) :: e.acts.map (actTag e.result.status)))
+
+/-- `churn n`: n times (request(); cancel(returned id)) — moves the id counter cheaply -/
+def churnLoop : Nat → St → Nat → St × Nat
+  | 0, st, last => (st, last)
+  | n + 1, st, _ =>
+    let (s1, id) := lookup st noScript
+    let (s2, _) := cancel s1 id
+    churnLoop n s2 id
+
+/-- `burst n`: n lookups without script -/
+def burstLoop : Nat → St → Nat → St × Nat
+  | 0, st, last => (st, last)
+  | n + 1, st, _ =>
+    let (s1, id) := lookup st noScript
+    burstLoop n s1 id
 
 structure DSt where
   orig : Bool
@@ -102,6 +119,20 @@ def stepLine (s : DSt) (line : String) : DSt × List String :=
   | [] => (s, [])
   | "case" :: _ => ({ s with st := init }, [line.trimAscii.toString])
   | ["touch", w] => if w == "on" || w == "off" then (s, ["P ret=0"]) else (s, ["bad-op"])
+  | ["churn", w] =>
+      match w.toNat? with
+      | some n => if 1 ≤ n ∧ n ≤ 70000 then
+                    let (st', last) := churnLoop n s.st 0
+                    ({ s with st := st' }, ["B churn" ++ (if st'.alloc < s.st.alloc then " id-wrap" else ""), "P ret=" ++ toString last])
+                  else (s, ["bad-op"])
+      | none => (s, ["bad-op"])
+  | ["burst", w] =>
+      match w.toNat? with
+      | some n => if 1 ≤ n ∧ n ≤ 5000 then
+                    let (st', last) := burstLoop n s.st 0
+                    ({ s with st := st' }, ["B burst", "P ret=" ++ toString last])
+                  else (s, ["bad-op"])
+      | none => (s, ["bad-op"])
   | _ =>
     match parseOp ws with
     | none => (s, ["bad-op"])
